@@ -332,4 +332,243 @@ theorem defragCore_perm (cells : List Cell) (rows : List Row) (hlen : cells.leng
       List.filterMap_map, hd.clen]
     exact hperm
 
+/-! ### defragmentation compacts -/
+
+theorem findSrc_spec (cells : List Cell) (dst src : Nat) :
+    (∀ j, findSrc cells dst src < j → j ≤ src → (cells.getD j Cell.empty).seqs = []) ∧
+    (dst < findSrc cells dst src → (cells.getD (findSrc cells dst src) Cell.empty).seqs ≠ []) := by
+  induction src with
+  | zero => exact ⟨fun j h1 h2 => by simp [findSrc] at h1; omega, fun h => by simp [findSrc] at h⟩
+  | succ s ih =>
+    unfold findSrc
+    split
+    · split
+      · rename_i h1 h2
+        exact ⟨fun j hj1 hj2 => by omega, fun _ => h2⟩
+      · rename_i h1 h2
+        refine ⟨fun j hj1 hj2 => ?_, ih.2⟩
+        by_cases hj : j = s + 1
+        · subst hj; simpa using h2
+        · exact ih.1 j hj1 (by omega)
+    · exact ⟨fun j hj1 hj2 => by omega, fun h => by omega⟩
+
+theorem defragLoop_exit (fix : Bool) (fuel : Nat) (st : DS) (dst src : Nat) (h : ¬ dst < src) :
+    defragLoop fix fuel st dst src = st := by
+  cases fuel with
+  | zero => rfl
+  | succ f => unfold defragLoop; simp [h]
+
+/-- owned cells first, then only unowned ones -/
+def Compact (cells : List Cell) : Prop :=
+  ∃ m, (∀ j, j < m → (cells.getD j Cell.empty).seqs ≠ []) ∧
+       (∀ j, m ≤ j → j < cells.length → (cells.getD j Cell.empty).seqs = [])
+
+structure CInv (n : Nat) (st : DS) (dst src : Nat) : Prop where
+  clen : st.cells.length = n
+  low : ∀ j, j < dst → (st.cells.getD j Cell.empty).seqs ≠ []
+  high : ∀ j, src < j → j < n → (st.cells.getD j Cell.empty).seqs = []
+
+theorem compact_of_exit (n : Nat) (st : DS) (dst src : Nat) (h : CInv n st dst src) (hx : src ≤ dst) :
+    Compact st.cells := by
+  by_cases ho : (st.cells.getD dst Cell.empty).seqs = []
+  · refine ⟨dst, h.low, fun j hj1 hj2 => ?_⟩
+    by_cases hj : j = dst
+    · subst hj; exact ho
+    · exact h.high j (by omega) (by rw [← h.clen]; exact hj2)
+  · refine ⟨dst + 1, fun j hj => ?_, fun j hj1 hj2 => h.high j (by omega) (by rw [← h.clen]; exact hj2)⟩
+    by_cases hj' : j = dst
+    · subst hj'; exact ho
+    · exact h.low j (by omega)
+
+theorem fillHole_cells (fix : Bool) (st : DS) (dst s : Nat) :
+    (fillHole fix st dst s).cells = holeCells st.cells dst s ∨
+    (dst = st.pDst + st.pLen ∧ (fillHole fix st dst s).cells = rotateIn (holeCells st.cells dst s) st.pDst dst) := by
+  unfold fillHole
+  simp only
+  split
+  · split
+    · split
+      · rename_i h; exact Or.inr ⟨h.2, rfl⟩
+      · exact Or.inl rfl
+    · split
+      · exact Or.inl rfl
+      · exact Or.inl rfl
+  · exact Or.inl rfl
+
+theorem fillHole_cinv (fix : Bool) (n : Nat) (st : DS) (dst src s : Nat) (h : CInv n st dst src)
+    (hds : dst < s) (hss : s ≤ src) (hsn : src < n)
+    (hown : (st.cells.getD s Cell.empty).seqs ≠ [])
+    (hgap : ∀ j, s < j → j ≤ src → (st.cells.getD j Cell.empty).seqs = []) :
+    CInv n (fillHole fix st dst s) (dst + 1) s := by
+  have hH : (holeCells st.cells dst s).length = n := by rw [holeCells_length, h.clen]
+  have hlowH : ∀ j, j < dst + 1 → ((holeCells st.cells dst s).getD j Cell.empty).seqs ≠ [] := by
+    intro j hj
+    by_cases hjd : j = dst
+    · subst hjd; rw [holeCells_dst _ _ _ hds (by rw [h.clen]; omega)]; exact hown
+    · rw [holeCells_other _ _ _ _ hjd (by omega)]; exact h.low j (by omega)
+  have hhighH : ∀ j, s < j → j < n → ((holeCells st.cells dst s).getD j Cell.empty).seqs = [] := by
+    intro j hj1 hj2
+    rw [holeCells_other _ _ _ _ (by omega) (by omega)]
+    by_cases hjs : j ≤ src
+    · exact hgap j hj1 hjs
+    · exact h.high j (by omega) hj2
+  rcases fillHole_cells fix st dst s with hc | ⟨hd, hc⟩
+  · exact ⟨by rw [hc]; exact hH, by rw [hc]; exact hlowH, by rw [hc]; exact hhighH⟩
+  · refine ⟨by rw [hc]; simp [rotateIn, length_mapFrom, hH], ?_, ?_⟩
+    · intro j hj
+      rw [hc, getD_rotateIn _ _ _ _ (by omega)]
+      split
+      · exact hlowH dst (by omega)
+      · split
+        · exact hlowH (j - 1) (by omega)
+        · exact hlowH j hj
+    · intro j hj1 hj2
+      rw [hc, getD_rotateIn _ _ _ _ (by omega), if_neg (by omega), if_neg (by omega)]
+      exact hhighH j hj1 hj2
+
+theorem defragLoop_compact (fix : Bool) (n fuel : Nat) (st : DS) (dst src : Nat)
+    (h : CInv n st dst src) (hsrc : src < n) (hf : n ≤ dst + fuel) :
+    Compact (defragLoop fix fuel st dst src).cells := by
+  induction fuel generalizing st dst src with
+  | zero => exact compact_of_exit n st dst src h (by omega)
+  | succ f ih =>
+    unfold defragLoop
+    split
+    · rename_i hlt
+      split
+      · rename_i hhole
+        simp only
+        have hle := findSrc_le st.cells dst src
+        have hsp := findSrc_spec st.cells dst src
+        split
+        · rename_i hgt
+          exact ih _ _ _ (fillHole_cinv fix n st dst src _ h hgt hle hsrc (hsp.2 hgt) hsp.1) (by omega) (by omega)
+        · rename_i hngt
+          rw [defragLoop_exit _ _ _ _ _ (by omega)]
+          refine ⟨dst, h.low, fun j hj1 hj2 => ?_⟩
+          by_cases hj : j = dst
+          · subst hj; exact hhole
+          · by_cases hjs : j ≤ src
+            · exact hsp.1 j (by omega) hjs
+            · exact h.high j (by omega) (by rw [← h.clen]; exact hj2)
+      · rename_i hown
+        refine ih _ _ _ ⟨h.clen, fun j hj => ?_, h.high⟩ hsrc (by omega)
+        by_cases hj' : j = dst
+        · subst hj'; exact hown
+        · exact h.low j (by omega)
+    · exact compact_of_exit n st dst src h (by omega)
+
+/-- **Defragmentation compacts** (pinned and repaired coalescing): afterwards every owned cell lies
+    before every unowned one -/
+theorem defragCore_compact (fix : Bool) (cells : List Cell) (rows : List Row) :
+    Compact (defragCore fix cells rows).1 := by
+  unfold defragCore
+  simp only
+  by_cases hn : cells.length = 0
+  · have hc : cells = [] := List.eq_nil_of_length_eq_zero hn
+    subst hc
+    exact ⟨0, fun j hj => by omega, fun j _ hj => by simp [defragLoop] at hj⟩
+  · exact defragLoop_compact fix cells.length cells.length ⟨cells, rows, 0, 0, 0⟩ 0 (cells.length - 1)
+      ⟨rfl, fun j hj => by omega, fun j hj1 hj2 => by omega⟩ (by omega) (by omega)
+
+/-! ### a compact cache rejects a batch only when it has fewer free cells than tokens -/
+
+def freeCount (cells : List Cell) : Nat := (cells.filter (fun c => decide (c.seqs = []))).length
+
+theorem compact_split (cells : List Cell) (h : Compact cells) :
+    ∃ l r, cells = l ++ r ∧ (∀ x ∈ l, x.seqs ≠ []) ∧ (∀ x ∈ r, x.seqs = []) := by
+  obtain ⟨m, h1, h2⟩ := h
+  refine ⟨cells.take m, cells.drop m, (List.take_append_drop m cells).symm, ?_, ?_⟩
+  · intro x hx
+    obtain ⟨j, hj, rfl⟩ := List.mem_take_iff_getElem.mp hx
+    have hj' : j < cells.length := by omega
+    have := h1 j (by omega)
+    simpa [List.getD_eq_getElem?_getD, List.getElem?_eq_getElem hj'] using this
+  · intro x hx
+    obtain ⟨j, hj, rfl⟩ := List.mem_drop_iff_getElem.mp hx
+    have hj' : m + j < cells.length := by omega
+    have := h2 (m + j) (by omega) hj'
+    simpa [List.getD_eq_getElem?_getD, List.getElem?_eq_getElem hj'] using this
+
+theorem findStartFrom_owned (k : Nat) (l r : List Cell) (i start count : Nat)
+    (hl : ∀ x ∈ l, x.seqs ≠ []) (hne : l ≠ []) :
+    findStartFrom k (l ++ r) i start count = findStartFrom k r (i + l.length) (i + l.length) 0 := by
+  induction l generalizing i start count with
+  | nil => exact absurd rfl hne
+  | cons x xs ih =>
+    simp only [List.cons_append, findStartFrom, hl x (by simp), if_false]
+    by_cases hxs : xs = []
+    · subst hxs; simp
+    · rw [ih (i + 1) (i + 1) 0 (fun y hy => hl y (by simp [hy])) hxs]
+      simp only [List.length_cons]
+      rw [show i + 1 + xs.length = i + (xs.length + 1) by omega]
+
+theorem findStartFrom_free (k : Nat) (r : List Cell) (i start count : Nat)
+    (hr : ∀ x ∈ r, x.seqs = []) (hk : k ≤ count + r.length) (hne : r ≠ []) :
+    findStartFrom k r i start count = some start := by
+  induction r generalizing i count with
+  | nil => exact absurd rfl hne
+  | cons x xs ih =>
+    simp only [findStartFrom, hr x (by simp), if_true]
+    split
+    · rfl
+    · rename_i hlt
+      apply ih (i + 1) (count + 1) (fun y hy => hr y (by simp [hy])) (by simp at hk; omega)
+      intro hxs; subst hxs; simp at hk; omega
+
+theorem freeCount_split (l r : List Cell) (hl : ∀ x ∈ l, x.seqs ≠ []) (hr : ∀ x ∈ r, x.seqs = []) :
+    freeCount (l ++ r) = r.length := by
+  unfold freeCount
+  rw [List.filter_append]
+  have h1 : l.filter (fun c => decide (c.seqs = [])) = [] := by
+    rw [List.filter_eq_nil_iff]; intro x hx; simpa using hl x hx
+  have h2 : r.filter (fun c => decide (c.seqs = [])) = r := by
+    rw [List.filter_eq_self]; intro x hx; simpa using hr x hx
+  rw [h1, h2]; simp
+
+/-- in a compact cache `findStartLoc` fails only if there are fewer free cells than tokens -/
+theorem findStart_compact_none (cells : List Cell) (k : Nat) (hk : 0 < k) (hc : Compact cells)
+    (h : findStart cells k = none) : freeCount cells < k := by
+  obtain ⟨l, r, rfl, hl, hr⟩ := compact_split cells hc
+  rw [freeCount_split l r hl hr]
+  by_cases hlt : r.length < k
+  · exact hlt
+  · exfalso
+    have hrne : r ≠ [] := by intro h0; subst h0; simp at hlt; omega
+    unfold findStart at h
+    by_cases hl0 : l = []
+    · subst hl0
+      rw [List.nil_append, findStartFrom_free k r 0 0 0 hr (by omega) hrne] at h
+      cases h
+    · rw [findStartFrom_owned k l r 0 0 0 hl hl0, findStartFrom_free k r _ _ 0 hr (by omega) hrne] at h
+      cases h
+
+theorem length_abs_zip (cells : List Cell) (rows : List Row) (h : cells.length = rows.length) :
+    ((cells.zip rows).filterMap entryOf).length + freeCount cells = cells.length := by
+  induction cells generalizing rows with
+  | nil => simp [freeCount]
+  | cons c cs ih =>
+    cases rows with
+    | nil => simp at h
+    | cons r rs =>
+      have := ih rs (by simpa using h)
+      unfold freeCount at this ⊢
+      by_cases hc : c.seqs = []
+      · simp only [List.zip_cons_cons, List.filterMap_cons, entryOf, hc, if_true, List.filter_cons, decide_true,
+          List.length_cons]
+        omega
+      · simp only [List.zip_cons_cons, List.filterMap_cons, entryOf, hc, if_false, List.filter_cons, decide_false,
+          List.length_cons]
+        simp only [Bool.false_eq_true, if_false]
+        omega
+
+/-- the repaired defragmentation keeps the number of free cells -/
+theorem defragCore_freeCount (cells : List Cell) (rows : List Row) (hlen : cells.length = rows.length) :
+    freeCount (defragCore true cells rows).1 = freeCount cells := by
+  obtain ⟨h1, h2, hp⟩ := defragCore_perm cells rows hlen
+  have a := length_abs_zip (defragCore true cells rows).1 (defragCore true cells rows).2 (by omega)
+  have b := length_abs_zip cells rows hlen
+  have := hp.length_eq
+  omega
+
 end OllamaVerif.Causal
